@@ -370,6 +370,113 @@ pub fn main(args: &[String]) -> i32 {
                 out.emit(&ev);
             }
         }
+        // a cluster of real nodes whose updates travel the way they do in production: execute() queues them in the node's
+        // GossipState, the harness is the wire - it drains the outbound queues, serialises every message to JSON and back,
+        // and delivers, delays, duplicates or loses it; lost messages are made up for by an anti-entropy style resend of the
+        // origin's replication state at the end.  After full delivery every node answers every read alike.
+        Some("cluster") => {
+            use redis_sim::production::ReplicatedShardedState;
+            use redis_sim::replication::gossip::GossipMessage;
+            use redis_sim::replication::ReplicationConfig;
+            let rt = tokio::runtime::Builder::new_current_thread().enable_all().build().unwrap();
+            let mut rng = rng(a.u64("seed", 1));
+            for run in 1..=a.usize("n", 40) {
+                let nn = rng.gen_range(2..=4usize);
+                let skeys = ["cs:1", "cs:2", "{t}cs"];
+                let hkeys = ["ch:1", "ch:{2}"];
+                let nsteps = rng.gen_range(4..=14usize);
+                let ev = rt.block_on(async {
+                    let nodes: Vec<ReplicatedShardedState> = (1..=nn).map(|i| ReplicatedShardedState::new(ReplicationConfig { replica_id: i as u64, enabled: true, ..Default::default() })).collect();
+                    let mut wire: Vec<(usize, String)> = Vec::new();   // (destination, JSON of the message)
+                    let mut script: Vec<Value> = Vec::new();
+                    let mut lost = 0usize;
+                    let mut serial = 0u64;
+                    for _ in 0..nsteps {
+                        let x = rng.gen_range(0..nn);
+                        serial += 1;
+                        let argv: Vec<String> = match rng.gen_range(0..9) {
+                            0 | 1 => vec!["SET".into(), skeys[rng.gen_range(0..3)].into(), format!("v{serial}")],
+                            2 => vec!["DEL".into(), skeys[rng.gen_range(0..3)].into()],
+                            3 => vec!["MSET".into(), skeys[0].into(), format!("m{serial}"), skeys[1].into(), format!("n{serial}")],
+                            4 => vec!["DEL".into(), skeys[0].into(), skeys[2].into()],
+                            5 | 6 => vec!["HSET".into(), hkeys[rng.gen_range(0..2)].into(), format!("f{}", rng.gen_range(0..3)), format!("h{serial}")],
+                            7 => vec!["HDEL".into(), hkeys[rng.gen_range(0..2)].into(), format!("f{}", rng.gen_range(0..3))],
+                            _ => vec!["APPEND".into(), skeys[rng.gen_range(0..3)].into(), format!("a{serial}")],
+                        };
+                        let av: Vec<&str> = argv.iter().map(|s| s.as_str()).collect();
+                        let _ = nodes[x].execute(argv_cmd(&av)).await;
+                        script.push(json!({"n": x + 1, "argv": argv}));
+                        // what the node queued for its peers goes on the wire (broadcast: one copy per peer)
+                        if let Some(gs) = nodes[x].get_gossip_state() {
+                            let out = gs.write().drain_outbound();
+                            for m in out {
+                                let js = serde_json::to_string(&m.message).unwrap_or_default();
+                                for y in 0..nn {
+                                    if y != x && m.target.map(|t| t.0 as usize == y + 1).unwrap_or(true) {
+                                        wire.push((y, js.clone()));
+                                    }
+                                }
+                            }
+                        }
+                        // the network: deliver some message (any order), duplicate one, lose one
+                        for _ in 0..rng.gen_range(0..3) {
+                            if wire.is_empty() {
+                                break;
+                            }
+                            let i = rng.gen_range(0..wire.len());
+                            match rng.gen_range(0..10) {
+                                0 => { wire.remove(i); lost += 1; }
+                                1 => { let (y, js) = wire[i].clone(); if let Ok(m) = serde_json::from_str::<GossipMessage>(&js) { nodes[y].apply_remote_deltas(m.into_deltas().unwrap_or_default()); } }
+                                _ => { let (y, js) = wire.remove(i); if let Ok(m) = serde_json::from_str::<GossipMessage>(&js) { nodes[y].apply_remote_deltas(m.into_deltas().unwrap_or_default()); } }
+                            }
+                        }
+                    }
+                    // everything still on the wire arrives, in any order
+                    while !wire.is_empty() {
+                        let i = rng.gen_range(0..wire.len());
+                        let (y, js) = wire.remove(i);
+                        if let Ok(m) = serde_json::from_str::<GossipMessage>(&js) {
+                            nodes[y].apply_remote_deltas(m.into_deltas().unwrap_or_default());
+                        }
+                    }
+                    // lost messages are made up for: every node ships its replication state to every other (anti-entropy)
+                    if lost > 0 {
+                        for x in 0..nn {
+                            let snap = nodes[x].snapshot_state().await;
+                            let ds: Vec<ReplicationDelta> = snap.into_iter().map(|(k, v)| ReplicationDelta::new(k, v, redis_sim::replication::lattice::ReplicaId::new(x as u64 + 1))).collect();
+                            for y in 0..nn {
+                                if y != x {
+                                    nodes[y].apply_remote_deltas(ds.clone());
+                                }
+                            }
+                        }
+                    }
+                    // let the shard actors drain their mailboxes, then read everything on every node
+                    let mut views = Vec::new();
+                    for n in &nodes {
+                        let mut v = Vec::new();
+                        for k in skeys {
+                            v.push(format!("{:?}", n.execute(argv_cmd(&["GET", k])).await));
+                            v.push(format!("{:?}", n.execute(argv_cmd(&["EXISTS", k])).await));
+                        }
+                        for k in hkeys {
+                            let mut h = match n.execute(argv_cmd(&["HGETALL", k])).await { RespValue::Array(Some(a)) => a.iter().map(|x| format!("{x:?}")).collect::<Vec<_>>(), o => vec![format!("{o:?}")] };
+                            let mut pairs: Vec<String> = h.chunks(2).map(|c| c.join("=")).collect();
+                            pairs.sort();
+                            h = pairs;
+                            v.push(h.join(","));
+                        }
+                        let snap: std::collections::BTreeMap<String, redis_sim::replication::state::ReplicatedValue> = n.snapshot_state().await.into_iter().collect();
+                        views.push(json!({"reads": v, "rs": snap.iter().map(|(k, x)| json!([k, crate::crdt::obs(x)])).collect::<Vec<_>>()}));
+                    }
+                    json!({"a": "cluster", "nn": nn, "lost": lost, "script": script, "views": views})
+                });
+                out.emit(&json!({"a": "reset", "run": run, "n": nn}));
+                let mut ev = ev;
+                ev["run"] = json!(run);
+                out.emit(&ev);
+            }
+        }
         Some("record") => {
             let mut rng = rng(a.u64("seed", 1));
             let reg = ["set", "setnx", "setxx", "getset", "del", "incr", "append"];
